@@ -368,3 +368,24 @@ TYPE_QUALNAME = {
     'TP': 'simlab.tasklib.TP', 'Node': 'simlab.tasklib.Node', 'NodeX': 'simlab.tasklib.NodeX',
     'TA2': 'simlab.tasklib2.TA',
 }
+
+
+# ---------------------------------------------------------------- fsspec-backed storages
+
+from labtech.storage import FsspecStorage  # noqa: E402
+
+
+class LocalFsspecStorage(FsspecStorage):
+    """FsspecStorage over fsspec's LocalFileSystem."""
+
+    def fs_constructor(self):
+        from fsspec.implementations.local import LocalFileSystem
+        return LocalFileSystem()
+
+
+class MemFsspecStorage(FsspecStorage):
+    """FsspecStorage over fsspec's in-process MemoryFileSystem (in-process substrates only)."""
+
+    def fs_constructor(self):
+        from fsspec.implementations.memory import MemoryFileSystem
+        return MemoryFileSystem()
